@@ -181,8 +181,10 @@ class Graph(object):
             self.states.append(st)
         return self.ids[k]
 
-    def transition_cover(self, rng=None, max_len=10 ** 9):
-        """Init-rooted paths that together take every edge at least once (greedy DFS tours)."""
+    def transition_cover(self, rng=None, max_len=10 ** 9, tail=0):
+        """Init-rooted paths that together take every edge at least once (greedy DFS tours).  tail: after its last covered edge every path
+        walks on for up to `tail` random steps - a step whose effect the implementation shows only later (a self-loop of the specification
+        that corrupts hidden state of the code) is then still followed by observations."""
         from collections import deque
         # BFS tree from inits for shortest prefixes
         prev = {}
@@ -228,6 +230,14 @@ class Graph(object):
                 path.append(x)
                 uncovered.discard(x)
                 cur = self.edges[x][2]
+            if tail and rng:
+                for _ in range(tail):
+                    o = self.out.get(cur, [])
+                    if not o:
+                        break
+                    x = rng.choice(o)
+                    path.append(x)
+                    cur = self.edges[x][2]
             paths.append(path)
         return paths
 
